@@ -12,3 +12,4 @@ import TLX.Props.OnCode.C14
 import TLX.Props.OnCode.C15
 import TLX.Props.OnCode.C09
 import TLX.Props.OnCode.C10
+import TLX.Props.OnCode.C01
